@@ -154,9 +154,45 @@ func shortFn(fn *ssa.Function) string {
 	return n
 }
 
+// typedSeparation: Go's type safety keeps a pointer of static type *T (or a slice of T) from pointing
+// into an object that was allocated with a type in which no T occurs.  For every such object
+// allocated so far in this function the loaded reference is therefore different from it.
+func (x *Exec) typedSeparation(reach string, t types.Type, v Val) {
+	if len(x.vc.allocs) == 0 {
+		return
+	}
+	x.walkRefs(t, 0, func(cell int, ft types.Type) {
+		var pointee types.Type
+		switch u := ft.Underlying().(type) {
+		case *types.Pointer:
+			pointee = u.Elem()
+		case *types.Slice:
+			pointee = u.Elem()
+		}
+		if pointee == nil || cell >= len(v) || !isAtom(v[cell].T) {
+			return
+		}
+		if _, isIface := pointee.Underlying().(*types.Interface); isIface {
+			return
+		}
+		for _, a := range x.vc.allocs {
+			if a.ref == v[cell].T {
+				continue
+			}
+			// an object whose address never left the registers cannot be what a loaded reference points to
+			if x.vc.escaped[a.ref] && (typeContains(a.typ, pointee, 0) || typeContains(pointee, a.typ, 0)) {
+				continue
+			}
+			x.vc.S.fact(reach, not(eq(v[cell].T, a.ref)))
+			x.vc.markDistinct(v[cell].T, a.ref)
+		}
+	})
+}
+
 // typeFacts adds the range facts that Go's type system guarantees for a value
 // that comes from outside (parameter, memory load, havocked call result).
 func (x *Exec) typeFacts(reach string, t types.Type, v Val, st *State) {
+	x.typedSeparation(reach, t, v)
 	l := x.vc.ls.of(t)
 	for i, ci := range l.cells {
 		c := v[i].T
